@@ -7,7 +7,7 @@ CXX     := clang++
 STD     := -std=c++17
 GUARD   := -DASMJIT_VERIF
 COMMON  := $(STD) -g1 -fno-omit-frame-pointer -DASMJIT_STATIC $(GUARD) -I$(REPO) -Wno-unused-command-line-argument
-SAN     := -fsanitize=address,undefined -fno-sanitize-recover=undefined -fno-sanitize=nonnull-attribute,function,vptr
+SAN     := -fsanitize=address,undefined -fno-sanitize-recover=undefined -fno-sanitize=nonnull-attribute,function,vptr,shift-base
 
 FLAGS_asan    := $(COMMON) -O1 $(SAN)
 FLAGS_rel     := $(COMMON) -O1 $(SAN) -DNDEBUG
@@ -20,7 +20,7 @@ SRCS := $(wildcard $(REPO)/asmjit/*/*.cpp)
 
 define LIB_RULES
 OBJS_$(1) := $$(patsubst $(REPO)/asmjit/%.cpp,$(B)/$(1)/obj/%.o,$(SRCS))
-$(B)/$(1)/obj/%.o: $(REPO)/asmjit/%.cpp
+$(B)/$(1)/obj/%.o: $(REPO)/asmjit/%.cpp Makefile
 	@mkdir -p $$(dir $$@)
 	$(CXX) $$(FLAGS_$(1)) -MMD -MP -c $$< -o $$@
 $(B)/$(1)/libasmjit.a: $$(OBJS_$(1))
@@ -41,6 +41,7 @@ LLVM_CXX := $(shell llvm-config-14 --cxxflags 2>/dev/null | sed 's/-std=[^ ]*//;
 LLVM_LD  := $(shell llvm-config-14 --ldflags 2>/dev/null) -lLLVM-14
 
 FWHDR := fw/vh.h
+ORACLE_LD := $(LLVM_LD) -lopcodes -lbfd
 
 define HARNESS
 ALL_BINS += $(B)/bin/$(1)
@@ -67,3 +68,7 @@ all: $(ALL_BINS)
 .PHONY: clean
 clean:
 	rm -rf $(B)
+
+$(B)/bin/otool: oracle/otool.cpp $(B)/oracle/llvm_mc.o $(B)/oracle/opc.o
+	@mkdir -p $(B)/bin
+	$(CXX) $(STD) -O1 -Ioracle oracle/otool.cpp $(B)/oracle/llvm_mc.o $(B)/oracle/opc.o $(ORACLE_LD) -o $@
